@@ -264,6 +264,32 @@ def text_of(kind: str, p: Dict[str, Any]) -> str:
     raise ValueError(kind)
 
 
+def custom_helper(name: str) -> Any:
+    """The application's own replacement for one c7nlib helper (bound in one program only)."""
+    from celpy import celtypes
+
+    if name == "normalize":
+        def normalize(s: Any) -> Any:
+            return celtypes.StringType("custom:" + str(s))
+        return normalize
+    if name == "glob":
+        def glob(text: Any, pattern: Any) -> Any:
+            return celtypes.BoolType(len(text) == len(pattern))
+        return glob
+
+    def unique_size(collection: Any) -> Any:
+        return celtypes.IntType(1000 + len(collection))
+    return unique_size
+
+
+def expected_custom(name: str, p: Dict[str, Any]) -> Any:
+    if name == "normalize":
+        return ["str", "custom:" + p["s"]]
+    if name == "glob":
+        return ["bool", len(p["text"]) == len(p["pat"])]
+    return ["int", 1000 + len(p["a"])]
+
+
 def expected_of(kind: str, p: Dict[str, Any], k: int, resource: Dict[str, Any]) -> Any:
     if kind == "intersect":
         return ["bool", ref_c7n.intersect(p["a"], p["b"])]
@@ -522,6 +548,12 @@ def generate(seed: int, tier: str = "quick") -> Dict[str, Any]:
     for _ in range(cfg["n_programs"]):
         kind = rw.choice(CTX_KINDS) if rw.random() < cfg["ctx_share"] else rw.choice(PURE_KINDS)
         programs.append({"kind": kind, "params": gen_params(rw, kind)})
+    if rc.random() < 0.25:
+        # a program of the application that binds its own function mapping: the c7nlib table
+        # plus an application-specific replacement of one helper
+        k = rw.choice(["normalize", "glob", "unique_size"])
+        programs.append({"kind": k, "params": gen_params(rw, k), "custom": k})
+        programs.append({"kind": k, "params": gen_params(rw, k)})
     if "cel_error" in fault_kinds:
         programs.append({"kind": "cel_error", "params": gen_params(rw, "cel_error")})
     if "helper_error" in fault_kinds:
@@ -565,7 +597,7 @@ def exec_history(trace: Dict[str, Any]) -> Dict[str, Any]:
         for op in trace["ops"]:
             prog = trace["programs"][op["prog"]]
             kind, params, mode, k = prog["kind"], prog["params"], op["mode"], op["k"]
-            if mode == "direct" and kind == "cel_error":
+            if mode == "direct" and (kind == "cel_error" or prog.get("custom")):
                 mode = "runner"
             rec: Dict[str, Any] = {"mode": mode, "kind": kind, "k": k}
             if L.C7N is not None:
@@ -586,7 +618,11 @@ def exec_history(trace: Dict[str, Any]) -> Dict[str, Any]:
                 prgm = compiled.get(key)
                 if prgm is None:
                     env = celpy.Environment(annotations=dict(decls), runner_class=runner_for[mode])
-                    prgm = env.program(env.compile(text_of(kind, params)), functions=L.FUNCTIONS)
+                    functions = L.FUNCTIONS
+                    if prog.get("custom"):
+                        functions = dict(L.FUNCTIONS)
+                        functions[prog["custom"]] = custom_helper(prog["custom"])
+                    prgm = env.program(env.compile(text_of(kind, params)), functions=functions)
                     compiled[key] = prgm
                 if mode == "runner":
                     return prgm.evaluate(activation, filter=flt)
@@ -620,6 +656,9 @@ def exec_history(trace: Dict[str, Any]) -> Dict[str, Any]:
                 L.C7N = None  # so that one leak is reported once, at the operation that leaked
             if len(sim.bad_context) > bad0:
                 rec["bad_context"] = sim.bad_context[bad0:][:3]
+            leaked = kit.host_leaks(L.FUNCTIONS)
+            if leaked:
+                rec["functions_table_leak"] = leaked[:6]
             records.append(rec)
             sim.current_k = sim.current_filter = None
     finally:
@@ -681,8 +720,13 @@ def execute(trace: Dict[str, Any]) -> Dict[str, Any]:
         elif kind in ERR_KINDS:
             fault = "cel_error" if kind == "cel_error" else "helper_error"
             stats[f"fault_{fault}"] = stats.get(f"fault_{fault}", 0) + 1
+        if "functions_table_leak" in rec:
+            violations.append(dict(base, oracle="f-application-function-in-c7nlib-table",
+                                   detail=rec["functions_table_leak"],
+                                   sig={"oracle": "f-application-function-in-c7nlib-table"}))
         if fault is None and "fp" in rec:
-            want = expected_of(kind, prog["params"], k, op["resource"])
+            want = (expected_custom(prog["custom"], prog["params"]) if prog.get("custom")
+                    else expected_of(kind, prog["params"], k, op["resource"]))
             if want == ["silent"]:
                 stats["not_asserted_statement_silent"] = stats.get("not_asserted_statement_silent", 0) + 1
                 continue
@@ -756,7 +800,8 @@ def shrink(trace: Dict[str, Any], sig: Dict[str, Any], budget: int = 120) -> Dic
 
 def sample_view(trace: Dict[str, Any]) -> Dict[str, Any]:
     return {"seed": trace["seed"], "cfg": trace["cfg"],
-            "programs": [text_of(p["kind"], p["params"]) for p in trace["programs"]],
+            "programs": [text_of(p["kind"], p["params"]) + (" [own " + p["custom"] + "()]" if p.get("custom") else "")
+                         for p in trace["programs"]],
             "ops": [{k: v for k, v in o.items() if k != "resource"} for o in trace["ops"]]}
 
 
